@@ -433,7 +433,14 @@ fn enumerate(w: &mut World, prop: &str, seed: u64, extra: &mut BTreeMap<&'static
                                 // written; if that mapping reaches the disk
                                 // first, the whole cluster reads stale host
                                 // bytes after the crash
-                                let fresh = sp.model.class_of(*g) != crate::model::CClass::Data
+                                // (not on the copy-on-write path - content
+                                // from a backing image or a compressed
+                                // cluster -, which syncs the data and holds
+                                // the slice lock until the mapping is written)
+                                let class = sp.model.class_of(*g);
+                                let plain_path = class == crate::model::CClass::Zero
+                                    || (class == crate::model::CClass::Unalloc && w.cfg.layers.len() == 1);
+                                let fresh = plain_path
                                     && spans.iter().any(|s| {
                                         s.base.is_some()
                                             && s.len > 0
